@@ -286,6 +286,28 @@ pub fn item_features(tokens: &str) -> Vec<&'static str> {
     f
 }
 
+/// features taken from the ASN.1 source (never from rustc's verdict) for diagnostics that point at a `use` line: the
+/// imported symbol is a parameterized type, for which no Rust item exists in the defining module
+fn spec_features(asn1: &str, d: &Diag) -> Vec<&'static str> {
+    let mut f = vec![];
+    if d.item.as_deref() == Some("use") {
+        if let Some(sym) = d.msg.split("no `").nth(1).and_then(|r| r.split('`').next()) {
+            let norm = |x: &str| x.chars().filter(|c| *c != '-' && *c != '_').collect::<String>().to_lowercase();
+            let parameterized = asn1.lines().any(|l| {
+                let l = l.trim_start();
+                match l.split_once('{') {
+                    Some((name, rest)) => !name.trim().is_empty() && name.trim().chars().all(|c| c.is_alphanumeric() || c == '-') && norm(name.trim()) == norm(sym) && rest.split_once('}').is_some_and(|(_, after)| after.trim_start().starts_with("::=")),
+                    None => false,
+                }
+            });
+            if parameterized {
+                f.push("import-of-parameterized-type");
+            }
+        }
+    }
+    f
+}
+
 /// writes the case files + lib.rs and runs cargo check; returns per-case error lists
 fn cargo_check(cases: &[(usize, String)]) -> Result<BTreeMap<usize, Vec<Diag>>, String> {
     cargo_check_at(&ws_dir(), cases)
@@ -544,7 +566,11 @@ pub fn run(ctx: &Ctx) -> Report {
                     let before = live.len();
                     live.retain(|&k| match per.get(&elig[k].n) {
                         Some(errs) => {
-                            failing.push((k, errs.clone()));
+                            let mut errs = errs.clone();
+                            for d in errs.iter_mut() {
+                                d.features.extend(spec_features(&elig[k].asn1, d));
+                            }
+                            failing.push((k, errs));
                             false
                         }
                         None => true,
@@ -937,7 +963,7 @@ pub fn debug_file(path: &str, flags: u64, show: bool) {
                 println!("---- generated ----\n{}", rustfmt(generated));
             }
         }
-        o => println!("{}", o.status()),
+        o => println!("{} {}", o.status(), o.brief()),
     }
 }
 
